@@ -15,6 +15,7 @@ package checks
 // control frame in order; one masked pong per ping on the outbound side.
 
 import (
+	"strings"
 	"errors"
 	"fmt"
 
@@ -411,13 +412,18 @@ func C06(tier string) *engine.Report {
 	var tot engine.DFSTotals
 	d := c06DFS(tier)
 	tot.Add(d.Run(), rep)
+	// a second session on the same Stream (the in-memory driver above never goes through the opening handshake)
+	tot.Add(c18ResumedDFS(tier).Run(), rep)
 	tot.Fill(rep, "sessions generated from choice points (message count, type, 8 payload length classes up to the maximum, fragmentation into <=3 fragments incl. empty ones, ping/pong in any gap, a cut at any byte position or byte-by-byte delivery) "+
 		"x 4 read APIs x inline/deferred completion; all combinations of up to N deviations (fragmentation, control insertion, text type, extra message, each cut) from the default session; "+
-		"non-trivial = the stream was segmented or contained a control frame, or a deviation was taken", d.MaxDeviations)
+		"non-trivial = the stream was segmented or contained a control frame, or a deviation was taken; plus, over real TCP, every shape of an earlier session on the same Stream (dropped with unread input, queued replies, a failed write) x blocking/async handshake x 0-2 frames sent with the response: the second session delivers exactly what its server sent", d.MaxDeviations)
 	return rep
 }
 
 func C06Replay(v engine.Violation, log func(string)) *engine.Violation {
+	if strings.HasPrefix(v.Config, "resumed-session@") {
+		return c18ResumedDFS(v.Config[16:]).ReplayChoices(v.Choices)
+	}
 	tier := "quick"
 	if len(v.Config) > 9 {
 		tier = v.Config[9:]
